@@ -107,8 +107,17 @@ def run_units(unit_names, tier, tag, only_props=None):
     for n in unit_names:
         d = os.path.join(UNITS, n)
         units.append({"name": n, "dir": d, "cfg": load_json(os.path.join(d, "unit.json"))})
-    info = {"edits": [], "kani_cmds": [], "build_s": 0.0, "cbmc_properties": 0, "solver_s": 0.0}
+    info = {"edits": [], "kani_cmds": [], "build_s": 0.0, "cbmc_properties": 0, "solver_s": 0.0, "trusted_scan": []}
     obls = []
+    # mechanical scan of the harness sources for stubs / assumptions that weaken a proof
+    for u in units:
+        info["trusted_scan"] += ["%s: %s" % (u["name"], t) for t in u["cfg"].get("trusted", [])]
+        for fn in os.listdir(u["dir"]):
+            if fn.endswith(".rs"):
+                for i, line in enumerate(open(os.path.join(u["dir"], fn)), 1):
+                    code = line.split("//")[0]
+                    if "kani::stub" in code or "stub_verified" in code:
+                        info["trusted_scan"].append("%s/%s:%d: %s" % (u["name"], fn, i, code.strip()))
     with Scratch(tag) as sc:
         info["edits"] = prepare(sc, units)
         if os.environ.get("VERIF_PREPARE_ONLY"):
